@@ -18,6 +18,42 @@
 #include <string.h>
 #include <librdsparser_private.h>
 
+static bool
+rdsparser_utils_parse_hex(const char *input,
+                          size_t      length,
+                          uint16_t   *value_out)
+{
+    uint16_t value = 0;
+
+    for (size_t i = 0; i < length; i++)
+    {
+        const char c = input[i];
+        uint8_t digit;
+
+        if (c >= '0' && c <= '9')
+        {
+            digit = c - '0';
+        }
+        else if (c >= 'a' && c <= 'f')
+        {
+            digit = c - 'a' + 10;
+        }
+        else if (c >= 'A' && c <= 'F')
+        {
+            digit = c - 'A' + 10;
+        }
+        else
+        {
+            return false;
+        }
+
+        value = (uint16_t)((value << 4) | digit);
+    }
+
+    *value_out = value;
+    return true;
+}
+
 bool
 rdsparser_utils_convert(const char        *input,
                         rdsparser_data_t   data_out,
@@ -28,7 +64,7 @@ rdsparser_utils_convert(const char        *input,
 
     const size_t rds_len = RDSPARSER_BLOCK_COUNT * block_string_length;
     const size_t input_len = strlen(input);
-    char *end;
+    uint16_t value;
 
     if (input_len == rds_len)
     {
@@ -40,12 +76,12 @@ rdsparser_utils_convert(const char        *input,
     else if (input_len == rds_len + error_string_length)
     {
         const char *ptr = input + RDSPARSER_BLOCK_COUNT * block_string_length;
-        uint8_t buffer = (uint8_t)strtol(ptr, &end, 16);
-
-        if (*end != '\0')
+        if (!rdsparser_utils_parse_hex(ptr, error_string_length, &value))
         {
             return false;
         }
+
+        const uint8_t buffer = (uint8_t)value;
 
         errors_out[RDSPARSER_BLOCK_A] = (buffer & 192) >> 6;
         errors_out[RDSPARSER_BLOCK_B] = (buffer & 48) >> 4;
@@ -59,19 +95,14 @@ rdsparser_utils_convert(const char        *input,
 
     for (uint8_t block = 0; block < RDSPARSER_BLOCK_COUNT; block++)
     {
-        char buffer[block_string_length + 1];
-        for (uint8_t i = 0; i < block_string_length; i++)
-        {
-            buffer[i] = input[block * block_string_length + i];
-        }
-
-        buffer[block_string_length] = '\0';
-        data_out[block] = (uint16_t)strtol(buffer, &end, 16);
-
-        if (*end != '\0')
+        if (!rdsparser_utils_parse_hex(input + block * block_string_length,
+                                       block_string_length,
+                                       &value))
         {
             return false;
         }
+
+        data_out[block] = value;
     }
 
     return true;
